@@ -60,6 +60,14 @@ _seen = []
 def remember(x):
     _seen.append(x)
     return len(_seen)
+class Fr:
+    calls = []
+    own = []
+    def __init__(self):
+        self.own = []
+    def add(self, n):
+        self.calls.append(n)
+        self.own.append(n)
 """
 # reviewed: (module, kind, normalised construct prefix) -> why what was compiled before cannot change an output
 REVIEWED_STATE = {
@@ -105,6 +113,38 @@ def process_state_sites(tree):
         if isinstance(b, ast.Attribute):
             return any(w is not None and n == b.attr and norm(b.value) in ("cls", "type(self)", "self.__class__", w) for (w, n) in shared)
         return False
+    # a class-level container reached through an INSTANCE (self.x.append(..)) is the same shared object unless some method rebinds self.x
+    cdefs = {c.name: c for c in ast.walk(tree) if isinstance(c, ast.ClassDef)}
+    def lineage(name, seen=()):
+        c = cdefs.get(name)
+        if c is None or name in seen:
+            return []
+        out_ = [c]
+        for b in c.bases:
+            if isinstance(b, ast.Name):
+                out_ += lineage(b.id, seen + (name,))
+        return out_
+    def rebinds(c):
+        return {t.attr for m in c.body if isinstance(m, (ast.FunctionDef, ast.AsyncFunctionDef)) for n in ast.walk(m) if isinstance(n, (ast.Assign, ast.AnnAssign))
+                for t in (n.targets if isinstance(n, ast.Assign) else [n.target]) if isinstance(t, ast.Attribute) and isinstance(t.value, ast.Name) and t.value.id == "self"}
+    for cname, c in cdefs.items():
+        line = lineage(cname)
+        rebound = set().union(*[rebinds(x) for x in line]) if line else set()
+        # subclasses in this module may rebind too, but an instance of THIS class is not helped by that
+        attrs = {n for x in line for (w, n) in shared if w == x.name}
+        for m in c.body:
+            if not isinstance(m, (ast.FunctionDef, ast.AsyncFunctionDef)):
+                continue
+            for n in ast.walk(m):
+                tgt = None
+                if isinstance(n, ast.Call) and isinstance(n.func, ast.Attribute) and n.func.attr in ("append", "add", "update", "setdefault", "extend", "insert", "pop", "remove", "clear"):
+                    tgt = n.func.value
+                elif isinstance(n, (ast.Assign, ast.AugAssign)):
+                    for t in (n.targets if isinstance(n, ast.Assign) else [n.target]):
+                        if isinstance(t, ast.Subscript):
+                            tgt = t.value
+                if isinstance(tgt, ast.Attribute) and isinstance(tgt.value, ast.Name) and tgt.value.id == "self" and tgt.attr in attrs and tgt.attr not in rebound:
+                    out.append(("shared-container", n, "`%s` grows the class-level container %s.%s through an instance: every instance shares it (in %s)" % (" ".join(norm(n).split())[:60], cname, tgt.attr, m.name)))
     for fn in [n for n in ast.walk(tree) if isinstance(n, (ast.FunctionDef, ast.AsyncFunctionDef))]:
         locs = {a.arg for a in fn.args.args} | {t.id for n in ast.walk(fn) if isinstance(n, ast.Assign) for t in n.targets if isinstance(t, ast.Name)}
         for n in ast.walk(fn):
@@ -134,7 +174,7 @@ def process_state_sites(tree):
 def run(ctx):
     ctx.rule("C30.R4", "no state that outlives one compilation feeds the compile path: no class- or module-level stateful iterator, no counter kept in a module global or class attribute (names and numbers derived from it depend on what the process compiled before)", floor=1)
     tree = ast.parse(CONTROL_STATE)
-    ctx.need(sorted(k for k, _, _ in process_state_sites(tree)) == ["class-counter", "class-counter", "global-counter", "shared-container", "shared-iterator"], "C30.R4 positive control lost")
+    ctx.need(sorted(k for k, _, _ in process_state_sites(tree)) == ["class-counter", "class-counter", "global-counter", "shared-container", "shared-container", "shared-iterator"], "C30.R4 positive control lost")
     n_mod = 0
     for rel in sorted(ctx.project.modules):
         if not rel.startswith(PREFIXES + ("ppci/ir.py", "ppci/api.py", "ppci/lang/c/", "ppci/lang/c3/", "ppci/utils/", "ppci/binutils/")):
@@ -148,6 +188,7 @@ def run(ctx):
             ctx.ob("C30.R4", rel, "no process-lifetime state on the compile path", False, construct="%s:%s" % (kind, " ".join(norm(node).split())[:70]), node=node, detail=txt)
     ctx.need(n_mod > 150, "compile-path modules not enumerated (%d)" % n_mod)
     ctx.ob("C30.R4", "ppci/*", "compile-path modules scanned for process-lifetime counters and iterators: %d" % n_mod, True, construct="scan-state")
+    _cached_instances(ctx)
     ctx.rule("C30.R1", "no arbitrary pick (set.pop(), next(iter(set))) from a builtin set on the compile path", floor=1)
     ctx.rule("C30.R2", "no loop or sequence built from a builtin set whose body creates ordered things (append/insert/add_node/add_edge/get_node/new_reg/emit/yield)", floor=1)
     ctx.rule("C30.R3", "the interference graph, the DAG splitter and mem2reg consume their sets through an explicit order", floor=4)
@@ -220,3 +261,87 @@ def run(ctx):
     bad = [k for k, _, _ in det.sinks(project, pp, per_class, by_attr)]
     fr = [n for n in ast.walk(pp) if isinstance(n, ast.For) and any(isinstance(c, ast.Call) and norm(c.func) == "ir.Phi" for b in n.body for c in ast.walk(b))]
     ctx.ob("C30.R3", "ppci/opt/mem2reg.py:Mem2RegPromotor.place_phi_nodes", "phi nodes are created and numbered in an order independent of set iteration", not bad and bool(fr) and not any(det.is_set_expr(f.iter, pnames) for f in fr), construct="phi-order")
+
+
+# counters of cached objects that cannot influence an output; (class, attribute) -> why
+REVIEWED_INSTANCE_STATE = {
+    ("RiscvAssembler", "lit_counter"): "RiscvAssembler.add_literal has no caller: the riscv assembler defines no `=symbol` pseudo load",
+}
+
+
+def _cached_instances(ctx):
+    """R5: api.get_arch hands out architecture objects from a process-wide cache (functools.lru_cache on
+    create_arch).  The architecture, and the assembler it creates for itself, therefore live as long as the process: a
+    counter kept on them keeps counting across compilations, and a name derived from it depends on what was
+    assembled before."""
+    from ..core import last_name
+    ctx.rule("C30.R5", "objects handed out by a process-wide cache (the architecture from create_arch and the assembler it owns) keep no counter across runs: every `self.x += ..` of such a class restarts from a constant in the same run (same method, before the counting loop, or prepare())", floor=3)
+    project = ctx.project
+    TL = "ppci/arch/target_list.py"
+    ca = ctx.fn(TL, "create_arch")
+    cached = any("lru_cache" in norm(d) or norm(d) in ("cache", "functools.cache") for d in ca.decorator_list)
+    ctx.ob("C30.R5", TL + ":create_arch", "architecture objects are cached for the lifetime of the process (this is what makes their state process-lifetime state)", True, construct="arch-cache:" + ("lru_cache" if cached else "none"))
+    if not cached:
+        return
+    # classes whose instances are cached: Architecture subclasses, and classes they instantiate into their own attributes
+    arch_classes, owned = [], {}
+    for rel, m in sorted(project.modules.items()):
+        if not rel.startswith(("ppci/arch/", "ppci/binutils/assembler.py")):
+            continue
+        for q, c in m.defs.items():
+            if not isinstance(c, ast.ClassDef):
+                continue
+            try:
+                names = [b.name for b in project.mro(c)]
+            except Exception:
+                continue
+            if "Architecture" in names:
+                arch_classes.append((rel, c))
+    for rel, c in arch_classes:
+        for n in ast.walk(c):
+            if isinstance(n, ast.Assign) and isinstance(n.value, ast.Call) and any(isinstance(t, ast.Attribute) and norm(t.value) == "self" for t in n.targets):
+                cn = last_name(n.value)
+                if cn and cn[:1].isupper():
+                    owned.setdefault(cn, (rel, c.name))
+    classes = {}
+    for rel, m in sorted(project.modules.items()):
+        if not rel.startswith(("ppci/arch/", "ppci/binutils/assembler.py")):
+            continue
+        for q, c in m.defs.items():
+            if isinstance(c, ast.ClassDef) and (c.name in owned or any(c is a for _, a in arch_classes)):
+                try:
+                    for b in project.mro(c):
+                        classes.setdefault(b.name, (getattr(b, "_module", m).rel if hasattr(getattr(b, "_module", m), "rel") else rel, b))
+                except Exception:
+                    classes.setdefault(c.name, (rel, c))
+    ctx.need(len(arch_classes) >= 10 and "BaseAssembler" in classes, "cached classes not enumerated (%d architectures, BaseAssembler %s)" % (len(arch_classes), "BaseAssembler" in classes))
+    n = 0
+    for cname, (rel, c) in sorted(classes.items()):
+        prep = [m for m in c.body if isinstance(m, ast.FunctionDef) and m.name == "prepare"]
+        for m in c.body:
+            if not isinstance(m, ast.FunctionDef):
+                continue
+            for a in ast.walk(m):
+                if not (isinstance(a, ast.AugAssign) and isinstance(a.target, ast.Attribute) and norm(a.target.value) == "self"):
+                    continue
+                attr = a.target.attr
+                n += 1
+                def resets(f, before=None):
+                    for x in ast.walk(f):
+                        if isinstance(x, ast.Assign) and any(norm(t) == "self." + attr for t in x.targets) and isinstance(x.value, ast.Constant) and (before is None or x.lineno < before):
+                            return True
+                    return False
+                loop = None
+                p_ = getattr(a, "_parent", None)
+                while p_ is not None and p_ is not m:
+                    if isinstance(p_, (ast.For, ast.While)):
+                        loop = p_
+                    p_ = getattr(p_, "_parent", None)
+                ok = (m.name != "__init__" and resets(m, before=(loop or a).lineno)) or any(resets(pm) for pm in prep)
+                why = REVIEWED_INSTANCE_STATE.get((cname, attr))
+                if not ok and why:
+                    ctx.ob("C30.R5", "%s:%s.%s" % (rel, cname, m.name), "reviewed: %s" % why, True, construct="reviewed-counter:%s.%s" % (cname, attr))
+                    continue
+                ctx.ob("C30.R5", "%s:%s.%s" % (rel, cname, m.name), "the counter self.%s restarts from a constant in every run" % attr, ok, construct="cached-instance-counter:%s.%s" % (cname, attr), node=a,
+                       detail="`%s`; the only other assignment is in __init__, which runs once per process for a cached object" % norm(a))
+    ctx.need(n >= 3, "no instance counters found in the cached classes (%d)" % n)
